@@ -132,39 +132,58 @@ type vBody struct{ *vTransport }
 // preserved, subprotocols and the extension offer rendered, a key made of exactly the 16 random bytes of this attempt), and
 // a connection is returned iff the response verifies; every error path returns no connection.
 func verifC13_dial() {
+	// lean=1 pins every dimension except the one a focused run is about (to its first / valid value)
+	lean := vParam("lean", 0) == 1
+	ch := func(tag string, n int, leanVal int) int {
+		if lean {
+			return leanVal
+		}
+		return vChoose(tag, n)
+	}
 	rnd := vInstallRand()
 	rnd.concrete = true // (base64 of arbitrary bytes is a table lookup per character: concrete pattern, two variants)
-	rnd.variant = vChoose("randVariant", 2)
+	rnd.variant = ch("randVariant", 2, 0)
 	opts := &DialOptions{HTTPHeader: http.Header{}}
 	custom := vString("custom")
 	opts.HTTPHeader.Set("X-Custom", custom)
-	if vChoose("callerSetsConnection", 2) == 1 {
+	if ch("callerSetsConnection", 2, 0) == 1 {
 		opts.HTTPHeader.Set("Connection", vString("callerConnection"))
 		opts.HTTPHeader.Set("Sec-WebSocket-Key", vString("callerKey"))
 	}
-	hostOverride := vChoose("hostOverride", 2) == 1
+	hostOverride := ch("hostOverride", 2, 0) == 1
 	if hostOverride {
 		opts.Host = "override.example"
 	}
-	nproto := vChoose("protos", 3)
+	nproto := ch("protos", 3, 0)
 	for i := 0; i < nproto; i++ {
 		opts.Subprotocols = append(opts.Subprotocols, []string{"chat", "superchat"}[i])
 	}
-	opts.CompressionMode = CompressionMode(vChoose("mode", 3))
+	opts.CompressionMode = CompressionMode(ch("mode", 3, 0))
 	// the server's answer
 	status := vInt("status", 100, 599)
-	goodAccept := vChoose("goodAccept", 2) == 1
-	respProto := []string{"", "chat", "other"}[vChoose("respProto", 3)]
+	goodAccept := ch("goodAccept", 2, 1) == 1
+	respProto := []string{"", "chat", "other"}[ch("respProto", 3, 0)]
+	respConn, respUpg := "Upgrade", "websocket"
+	tokensOK := true
+	if vParam("tokens", 0) == 1 {
+		// token lists in the response's Connection / Upgrade headers: exact tokens (any case, among others) versus
+		// near misses that merely contain the word
+		conns := []string{"Upgrade", "keep-alive, UPGRADE", "notUpgrade", "keep-alive, upgrade-insecure-requests", "keep-alive"}
+		upgs := []string{"websocket", "h2c, WebSocket", "notWebSocket", "h2c, websockets2"}
+		ci, ui := vChoose("respConn", len(conns)), vChoose("respUpg", len(upgs))
+		respConn, respUpg = conns[ci], upgs[ui]
+		tokensOK = ci <= 1 && ui <= 1
+	}
 	respExt := []string{"", "permessage-deflate", "permessage-deflate; server_no_context_takeover", "x-unknown",
 		// a parameter the client did not offer and cannot honour (its compressor's window is fixed)
-		"permessage-deflate; client_max_window_bits=10"}[vChoose("respExt", 5)]
+		"permessage-deflate; client_max_window_bits=10"}[ch("respExt", 5, 0)]
 	body := &vBody{vNewTransport(nil)}
 	body.endMode = vEndBlock
 	rt := &vRoundTripper{}
 	rt.resp = func(req *http.Request) (*http.Response, error) {
 		h := http.Header{}
-		h.Set("Connection", "Upgrade")
-		h.Set("Upgrade", "websocket")
+		h.Set("Connection", respConn)
+		h.Set("Upgrade", respUpg)
 		if goodAccept {
 			h.Set("Sec-WebSocket-Accept", vRefAcceptKey(req.Header.Get("Sec-WebSocket-Key")))
 		} else {
@@ -215,7 +234,7 @@ func verifC13_dial() {
 	// C13.dial
 	protoOK := respProto == "" || (respProto == "chat" && nproto >= 1)
 	extOK := respExt == "" || (respExt != "x-unknown" && !strings.Contains(respExt, "client_max_window_bits") && opts.CompressionMode != CompressionDisabled)
-	want := vAnd(status == 101, goodAccept && protoOK && extOK)
+	want := vAnd(status == 101, goodAccept && protoOK && extOK && tokensOK)
 	if err == nil {
 		vReach("C13.dial.connected")
 		vAssert(want, "C13.dial.connects-only-on-valid-response")
